@@ -1080,3 +1080,38 @@ func syntacticallyNonNil(v ssa.Value) bool {
 	}
 	return false
 }
+
+
+// valueSource: one of the definitions a value used at some block can have come from, with
+// the block at whose end it was chosen (facts holding there hold for that alternative).
+type valueSource struct {
+	Val ssa.Value
+	At  *ssa.BasicBlock
+}
+
+// sourcesAt expands v, used at block `at`, through local cells and phis: for every phi the
+// incoming edges that the branch facts at `at` rule out are dropped, the others are followed
+// (the value an inlined helper returns arrives as such a phi, one edge per return statement).
+func sourcesAt(v ssa.Value, at *ssa.BasicBlock) []valueSource {
+	var out []valueSource
+	seen := map[ssa.Value]bool{}
+	var walk func(v ssa.Value, at *ssa.BasicBlock, depth int)
+	walk = func(v ssa.Value, at *ssa.BasicBlock, depth int) {
+		v = resolveLocal(v)
+		ph, ok := v.(*ssa.Phi)
+		if !ok || depth > 6 || seen[v] {
+			out = append(out, valueSource{v, at})
+			return
+		}
+		seen[v] = true
+		inf := infeasibleEdges(ph.Block(), at)
+		for i, e := range ph.Edges {
+			if inf[i] {
+				continue
+			}
+			walk(e, ph.Block().Preds[i], depth+1)
+		}
+	}
+	walk(v, at, 0)
+	return out
+}
